@@ -101,8 +101,13 @@ def _gen_of(r):
                         continue
                     b = a + 1
                 cnt = (b - a) if same else r.randrange(0, 4)
-                ops.append(['setslice' if (same and b > a) else 'setslice_resize', a, b,
-                            [_elem_value(r, elem) for _ in range(cnt)]])
+                kind_ = 'setslice' if (same and b > a) else 'setslice_resize'
+                pa, pb = a, b
+                if mlen and r.random() < 0.35:
+                    # the same slice written the other ways Python allows: negative bounds, omitted stop
+                    pa = a - mlen if r.random() < 0.7 else a
+                    pb = None if (b == mlen and r.random() < 0.6) else (b - mlen if (b < mlen and r.random() < 0.5) else b)
+                ops.append([kind_, pa, pb, [_elem_value(r, elem) for _ in range(cnt)]])
                 mlen += cnt - (b - a)
             elif m == 'sort':
                 ops.append(['sort', r.random() < 0.4, r.choice(['full', 'coarse', 'coarse', 'const'])])
@@ -450,9 +455,29 @@ class OfRun(object):
                         nm[i] = op[2]
                     self.m = nm
                 elif k in ('setslice', 'setslice_resize'):
-                    a, b = min(op[1], n), min(op[2], n)
-                    if k == 'setslice' and (b - a != len(op[3]) or b == a):
+                    a, b = op[1], op[2]
+                    if a is not None and a >= 0:
+                        a = min(a, n)
+                    if b is not None and b >= 0:
+                        b = min(b, n)
+                    lo, hi, _st = slice(a, b).indices(n)
+                    hi = max(hi, lo)
+                    if k == 'setslice' and (hi - lo != len(op[3]) or hi == lo):
                         return 'skip'      # the history before it changed: no longer the same-length form
+                    # what the open finding F9g does instead of list semantics: overwrite from the first selected
+                    # position onwards, appending at the end; an empty selection of a non-empty object raises
+                    sel = list(range(n))[slice(a, b)]
+                    if n and not sel:
+                        self._f9g_alt = 'IndexError'
+                    else:
+                        alt = list(mlist)
+                        start = sel[0] if sel else 0
+                        for j_, v_ in enumerate(op[3]):
+                            if start + j_ < len(alt):
+                                alt[start + j_] = v_
+                            else:
+                                alt.append(v_)
+                        self._f9g_alt = alt if (m is not None or op[3]) else 'SCHEMA'     # nothing assigned: stays a schema
                     o[a:b] = [self.elem_obj(v) for v in op[3]]
                     nm = list(mlist)
                     nm[a:b] = list(op[3])
@@ -503,8 +528,19 @@ class OfRun(object):
                         nm[i] = dict(nm[i], a=op[2])
                     self.m = nm
             except Exception as e:
-                raise Fail('well-formed-mutator-raised', exc_cls=type(e).__name__, msg=str(e)[:120])
-            self.check_state('after-' + k)
+                extra = {}
+                if k == 'setslice_resize':
+                    extra['f9g_alt'] = getattr(self, '_f9g_alt', None) == 'IndexError' and \
+                        isinstance(e, (IndexError, error.PyAsn1Error))
+                raise Fail('well-formed-mutator-raised', exc_cls=type(e).__name__, msg=str(e)[:120], **extra)
+            try:
+                self.check_state('after-' + k)
+            except Fail as f:
+                if k == 'setslice_resize':
+                    alt = getattr(self, '_f9g_alt', None)
+                    f.d['f9g_alt'] = (isinstance(alt, list) and self.observe(self.o) == self.expected(alt)) or \
+                        (alt == 'SCHEMA' and self.observe(self.o) == self.expected(None))
+                raise
             return 'mut'
         # ---- readers
         if k in ('len', 'iter', 'contains', 'getitem', 'getslice', 'get_noinst', 'count', 'index', 'prettyPrint',
